@@ -192,7 +192,7 @@ pub fn run() -> i32 {
     );
     quiet_panics();
     let thorough = rep.thorough();
-    let kmax_bfs = if thorough { 10 } else { 8 };
+    let kmax_bfs = if thorough { 11 } else { 8 };
     let mut states = 0u64;
     let mut transitions = 0u64;
     let res: Vec<(u64, u64)> = {
